@@ -368,7 +368,17 @@ def rule_snap(repo):
                         or (isinstance(core, ast.Call) and (dotted(core.func) or '').split('.')[-1] in ('atleast_1d', 'as_tensor') and core.args):
                     core = core.func.value if isinstance(core.func, ast.Attribute) and not (dotted(core.func) or '').startswith('torch.') else core.args[0]
                 live = dotted(core) in ('self.systime', 'self._t')
-                res.inst({'function': f.fq, 'reference time alternative': src(alt)[:50], 'is the live clock buffer': live}, src(alt))
+                # a caller-supplied time: the systime getter hands out the live buffer itself, so `set_refpoint(x, u, t=system.systime)` passes the clock;
+                # kept through view-preserving wrappers only (atleast_1d / view / as_tensor) it stays the clock
+                getter = repo.cls(DYN, 'System').methods.get('systime')
+                hands_out_live = getter is not None and any(isinstance(r, ast.Return) and dotted(r.value) == 'self._t' for r in ast.walk(getter.node))
+                caller_view = isinstance(core, ast.Name) and core.id in f.params and hands_out_live
+                res.inst({'function': f.fq, 'reference time alternative': src(alt)[:50], 'is the live clock buffer': live,
+                          'view of a caller tensor that may be the clock': caller_view}, src(alt))
+                if caller_view:
+                    res.add(Finding('C15.SNAP', f, 'the reference time `%s` is a view of the caller\'s tensor, and System.systime hands out the live clock buffer: after '
+                                    '`set_refpoint(x, u, t=system.systime)` the stored reference time is advanced in place by every later call, so A, B, C, D '
+                                    'move away from the stored f(x*, u*, t*), g(x*, u*, t*)' % src(alt)[:50], node=a, construct='caller clock as reference time'))
                 if live:
                     res.add(Finding('C15.SNAP', f, 'the reference time `%s` IS the clock buffer (no clone): the forward hook advances it in place, so after '
                                     'the next call A, B, C, D are linearised at another time than the stored f(x*, u*, t*), g(x*, u*, t*)' % src(alt)[:50],
